@@ -25,4 +25,9 @@ for f in sorted(glob.glob(f"{V}/benign/*.diff")):
         print(name,"done", sum(1 for x in rows if x[0]==name and x[2]=="silent"),"silent of",len(props),flush=True)
     finally:
         subprocess.run(["git","-C","/repo","checkout","--","."],check=True)
-json.dump(rows, open(f"{V}/benign/last_results.json","w"), indent=1)
+prev = []
+try:
+    prev = [r for r in json.load(open(f"{V}/benign/last_results.json")) if r[0] not in {x[0] for x in rows}]
+except Exception:
+    pass
+json.dump(prev + [list(r) for r in rows], open(f"{V}/benign/last_results.json","w"), indent=1)
